@@ -25,32 +25,221 @@ theorem stmtVars_spec (x : String) (y z : Option String) :
     | some z =>
       by_cases h : x = z
       · subst h; simp [stmtVars, Analysis.dedupOpt]
-      · simp [stmtVars, Analysis.dedupOpt, h]
-        intro v; constructor <;> rintro (h | h) <;> simp [h]
+      · have h' : ¬ z = x := fun e => h e.symm
+        simp [stmtVars, Analysis.dedupOpt, h, h']
+        intro v; grind
   | some y =>
     cases z with
     | none =>
       by_cases h : x = y
       · subst h; simp [stmtVars, Analysis.dedupOpt]
-      · simp [stmtVars, Analysis.dedupOpt, h]
-        intro v; constructor <;> rintro (h | h) <;> simp [h]
+      · have h' : ¬ y = x := fun e => h e.symm
+        simp [stmtVars, Analysis.dedupOpt, h, h']
+        intro v; grind
     | some z =>
       by_cases h : x = y
       · subst h
         by_cases h2 : x = z
         · subst h2; simp [stmtVars, Analysis.dedupOpt]
-        · simp [stmtVars, Analysis.dedupOpt, h2]
-          intro v; constructor <;> rintro (h | h) <;> simp [h]
-      · by_cases h2 : x = z
+        · have h2' : ¬ z = x := fun e => h2 e.symm
+          simp [stmtVars, Analysis.dedupOpt, h2, h2']
+          intro v; grind
+      · have h' : ¬ y = x := fun e => h e.symm
+        by_cases h2 : x = z
         · subst h2
-          simp [stmtVars, Analysis.dedupOpt, h]
-          intro v; constructor <;> rintro (h | h) <;> simp [h]
-        · by_cases h3 : y = z
+          simp [stmtVars, Analysis.dedupOpt, h, h']
+          intro v; grind
+        · have h2' : ¬ z = x := fun e => h2 e.symm
+          by_cases h3 : y = z
           · subst h3
-            simp [stmtVars, Analysis.dedupOpt, h]
-            intro v; constructor <;> rintro (h | h) <;> simp [h]
-          · simp [stmtVars, Analysis.dedupOpt, h, h2, h3]
-            intro v; constructor <;> rintro (h | h | h) <;> simp [h]
+            simp [stmtVars, Analysis.dedupOpt, h, h']
+            intro v; grind
+          · have h3' : ¬ z = y := fun e => h3 e.symm
+            simp [stmtVars, Analysis.dedupOpt, h, h2, h3, h', h2', h3']
+            intro v; grind
+
+/-- the names an atom mentions are non-empty -/
+def atomOk : Atom → Bool
+  | .var y => y != ""
+  | .const => true
+
+theorem operandName_of_atomOf {n : Node} {a : Atom} (h : atomOf n = some a) :
+    Analysis.operandName n.rmCast = .ok (atomName a) := by
+  unfold atomOf at h
+  cases hn : n.rmCast <;> rw [hn] at h <;> simp at h <;> subst h <;> rfl
+
+theorem operandFlow_of_not_mem (op : String) (a b : Atom) (alt : Nat) (u : String)
+    (hu : ¬ (atomName a = some u ∨ atomName b = some u)) : operandFlow op a b alt u = .o := by
+  cases a <;> cases b <;> simp [atomName] at hu <;> simp [operandFlow]
+  all_goals grind
+
+theorem bin_vars_mem (op x : String) (a b : Atom) (v : String) :
+    v ∈ (Cmd.bin op x a b).vars ↔ v = x ∨ atomName a = some v ∨ atomName b = some v := by
+  cases a <;> cases b <;> simp [Cmd.vars, atomName] <;> grind
+
+theorem relList_replaceColumn_single (r rel : Relation) (vec : List Poly) (x : String)
+    (h : r.replaceColumn vec x = .ok rel) : RelList.replaceColumn [r] vec x = .ok [rel] := by
+  unfold RelList.replaceColumn
+  simp [List.mapM_cons, h]
+  rfl
+
+/-- `x = a op b`: the model's relation means the chosen alternative of the calculus' rule in
+    column `x` and the identity elsewhere -/
+theorem binaryOp_den (idx : Nat) (x op : String) (l r : Node) (a b : Atom)
+    (ha : atomOf l = some a) (hb : atomOf r = some b) (hop : op = "+" ∨ op = "-" ∨ op = "*")
+    (hx : x ≠ "") (hna : atomOk a = true) (hnb : atomOk b = true) :
+    ∃ rel, Analysis.binaryOp idx x op l r = .ok (idx + 1, [rel]) ∧ rel.WF ∧
+      (∀ v ∈ rel.vars, v ∈ (Cmd.bin op x a b).vars) ∧
+      ∀ (c : Choice) (alt : Nat), c[idx]? = some alt → alt < 3 → ∀ u v : String,
+        rel.den c u v =
+          if v = x then operandFlow op a b (swapAlt ((Cmd.bin op x a b).swaps == [true]) alt) u
+          else if u = v then .m else .o := by
+  have hopm : op ∈ Gen.binOps := by
+    rcases hop with rfl | rfl | rfl <;> decide
+  obtain ⟨hnd, hmem⟩ := stmtVars_spec x (atomName a) (atomName b)
+  obtain ⟨hlen, htab⟩ := vector_table_documented op hopm x a b
+  have hne : ∀ v ∈ stmtVars x (atomName a) (atomName b), v ≠ "" := by
+    intro v hv
+    rcases (hmem v).1 hv with h | h | h
+    · rw [h]; exact hx
+    · cases a <;> simp [atomName] at h
+      subst h; simpa [atomOk] using hna
+    · cases b <;> simp [atomName] at h
+      subst h; simpa [atomOk] using hnb
+  let r0 := Relation.identityOpt (Analysis.dedupOpt [some x, atomName a, atomName b])
+  have hr0 : r0.vars = stmtVars x (atomName a) (atomName b) := by
+    show (Relation.new _ _).vars = _
+    rw [new_vars]
+    exact filter_nonempty_eq _ hne
+  let vec := (Gen.vectorTable op (classY x (atomName a)) (classZ x (atomName a) (atomName b))).map
+    (Analysis.entryPoly idx)
+  obtain ⟨rel, hrel, hwf, hvars, hden⟩ := replaceColumn_spec r0 vec x (hr0 ▸ hnd) (hr0 ▸ hne)
+    (hr0 ▸ (hmem x).2 (Or.inl rfl)) (by rw [hr0, List.length_map, hlen])
+    (by
+      intro p hp
+      simp only [vec, List.mem_map] at hp
+      obtain ⟨e, _, rfl⟩ := hp
+      exact entryPoly_wf idx e)
+  refine ⟨rel, ?_, hwf, ?_, ?_⟩
+  · unfold Analysis.binaryOp
+    rw [operandName_of_atomOf ha, operandName_of_atomOf hb]
+    simp only [bind, Except.bind, createVector_eq idx op x _ _ hopm]
+    rw [relList_replaceColumn_single r0 rel vec x hrel]
+    rfl
+  · intro v hv
+    rw [hvars, hr0] at hv
+    exact (bin_vars_mem op x a b v).2 ((hmem v).1 hv)
+  · intro c alt hc halt u v
+    rw [hden c u v]
+    by_cases hvx : v = x
+    · rw [if_pos hvx, if_pos hvx, hr0]
+      rcases idx_cases (stmtVars x (atomName a) (atomName b)) u with ⟨hu, hu'⟩ | ⟨_, k, hk, huk, hk'⟩
+      · rw [hu']
+        simp only
+        rw [operandFlow_of_not_mem]
+        intro h
+        exact hu ((hmem u).2 (Or.inr h))
+      · rw [huk]
+        simp only [vec]
+        have hk2 : k < (Gen.vectorTable op (classY x (atomName a)) (classZ x (atomName a) (atomName b))).length := by
+          rw [hlen]; exact hk
+        rw [List.getD_eq_getElem?_getD, List.getElem?_map, List.getElem?_eq_getElem hk2]
+        simp only [Option.map_some, Option.getD_some]
+        rw [entryPoly_evalD idx _ c alt hc halt]
+        have := htab alt halt k hk
+        rw [List.getD_eq_getElem?_getD, List.getElem?_eq_getElem hk2, Option.getD_some,
+          idx_getD huk] at this
+        exact this
+    · rw [if_neg hvx, if_neg hvx]; rfl
+
+/-! ## `skip`, `x = y`, `x = const` -/
+
+theorem emptyRel_wf : (Relation.new []).WF := by
+  refine ⟨List.nodup_nil, ?_, rfl, ?_, ?_⟩ <;> intro _ h <;> cases h
+
+theorem emptyRel_vars : (Relation.new []).vars = [] := rfl
+
+theorem emptyRel_den (c : Choice) (u v : String) : (Relation.new []).den c u v = idS u v :=
+  Relation.den_nil_vars rfl c u v
+
+theorem evalD_const (s : Scalar) (c : Choice) : (Poly.const s).evalD c = s := by
+  exact sum_zero_left s
+
+theorem constAsgn_den (x : String) (hx : x ≠ "") :
+    ∃ rel, Analysis.constAsgn x = [rel] ∧ rel.WF ∧ (∀ v ∈ rel.vars, v ∈ (Cmd.asgnConst x).vars) ∧
+      ∀ (c : Choice) (u v : String), rel.den c u v = if v = x then .o else idS u v := by
+  have hnew : Relation.new [x] = ⟨[x], [[Poly.zero]]⟩ := by
+    unfold Relation.new
+    simp only [filter_nonempty_eq [x] (by simpa using hx)]
+    rfl
+  refine ⟨⟨[x], [[Poly.zero]]⟩, ?_, ?_, ?_, ?_⟩
+  · unfold Analysis.constAsgn RelList.ofVars; rw [hnew]
+  · refine ⟨by simp, by simpa using hx, rfl, by simp, ?_⟩
+    intro row hr p hp
+    simp only [List.mem_singleton] at hr; subst hr
+    simp only [List.mem_singleton] at hp; subst hp
+    rfl
+  · intro v hv; simpa [Cmd.vars] using hv
+  · intro c u v
+    by_cases hu : u = x
+    · by_cases hv : v = x
+      · rw [hu, hv, if_pos rfl]
+        have h0 : List.idxOf? x [x] = some 0 := by simp [List.idxOf?_cons]
+        rw [Relation.den_of_idx (r := ⟨[x], [[Poly.zero]]⟩) h0 h0]
+        exact evalD_zero c
+      · rw [if_neg hv]
+        exact Relation.den_of_not_mem_right (r := ⟨[x], [[Poly.zero]]⟩) (by simpa using hv) c u
+    · rw [Relation.den_of_not_mem_left (r := ⟨[x], [[Poly.zero]]⟩) (by simpa using hu) c v]
+      split
+      · rename_i hv; subst hv; exact idS_of_ne hu
+      · rfl
+
+theorem idAsgn_den (x y : String) (hx : x ≠ "") (hy : y ≠ "") :
+    ∃ rel, Analysis.idAsgn x y = .ok [rel] ∧ rel.WF ∧ (∀ v ∈ rel.vars, v ∈ (Cmd.asgnVar x y).vars) ∧
+      ∀ (c : Choice) (u v : String), rel.den c u v =
+        if x = y then idS u v
+        else if v = x then (if u = y then .m else .o) else idS u v := by
+  by_cases hxy : x = y
+  · subst hxy
+    refine ⟨Relation.new [], ?_, emptyRel_wf, ?_, ?_⟩
+    · unfold Analysis.idAsgn; simp; rfl
+    · intro v hv; cases hv
+    · intro c u v; rw [if_pos rfl]; exact emptyRel_den c u v
+  · have hne : ∀ v ∈ [x, y], v ≠ "" := by
+      intro v hv
+      simp only [List.mem_cons, List.not_mem_nil, or_false] at hv
+      rcases hv with rfl | rfl <;> assumption
+    have hnd : [x, y].Nodup := by simp [hxy]
+    have hvars := Relation.identity_vars [x, y] hne
+    obtain ⟨rel, hrel, hwf, hv, hden⟩ := replaceColumn_spec (Relation.identity [x, y])
+      [Poly.const .o, Poly.const .m] x (by rw [hvars]; exact hnd) (by rw [hvars]; exact hne)
+      (by rw [hvars]; simp)
+      (by rw [hvars]; rfl) (by intro p hp; simp at hp; rcases hp with rfl | rfl <;> rfl)
+    refine ⟨rel, ?_, hwf, ?_, ?_⟩
+    · unfold Analysis.idAsgn
+      have : (x == y) = false := by simpa using hxy
+      simp only [this]
+      exact relList_replaceColumn_single _ rel _ x hrel
+    · intro v hv'; rw [hv, hvars] at hv'; exact hv'
+    · intro c u v
+      rw [hden c u v, if_neg hxy, hvars]
+      by_cases hvx : v = x
+      · rw [if_pos hvx, if_pos hvx]
+        by_cases hux : u = x
+        · subst hux
+          have : List.idxOf? u [u, y] = some 0 := by simp [List.idxOf?_cons]
+          rw [this, if_neg hxy]
+          exact evalD_const _ c
+        · by_cases huy : u = y
+          · subst huy
+            have : List.idxOf? u [x, u] = some 1 := by
+              simp [List.idxOf?_cons, hxy]
+            rw [this, if_pos rfl]
+            exact evalD_const _ c
+          · have : List.idxOf? u [x, y] = none := by
+              rw [List.idxOf?_eq_none_iff]; simp [hux, huy]
+            rw [this, if_neg huy]
+      · rw [if_neg hvx, if_neg hvx]
 
 end Refine
 end Mwp
